@@ -60,6 +60,10 @@ public:
   }
 
 private:
+  // The provider's registry finds a logger by the name it was created with; GetName() cannot be
+  // used for that, a logger whose scope is disabled answers with the no-op logger's name.
+  friend class LoggerProvider;
+
   // The name of this logger
   std::string logger_name_;
 
